@@ -329,6 +329,9 @@ def read_body(ctx, p):
     """files not written by mofun: standard-uncertainty parentheses, non-P1 space group, coordinates on/over the boundary"""
     Atoms = ctx.ms.Atoms
     x = ctx.real('x', -2, 2)
+    # how the foreign file spells the number (plain decimal / exponent notation with E or e) is an explored environment choice; in
+    # symbolic mode the number is a placeholder token whatever its spelling
+    sp = ctx.choose(3, 'number-spelling')
     cifbody = """data_t
 _symmetry_space_group_name_H-M          '%s'
 _cell_length_a                          10.0(3)
@@ -363,7 +366,8 @@ loop_
             return io.StringIO(c.WriteOut())
         good, bad, bad2 = doc('P 1'), doc('F m -3 m'), doc('P 1 21/c 1')
     else:
-        good, bad, bad2 = io.StringIO(cifbody % ('P 1', repr(x))), io.StringIO(cifbody % ('F m -3 m', repr(x))), io.StringIO(cifbody % ('P 1 21/c 1', repr(x)))
+        xs = [repr(x), '%.17E' % x, '%.17e' % x][sp]
+        good, bad, bad2 = io.StringIO(cifbody % ('P 1', xs)), io.StringIO(cifbody % ('F m -3 m', xs)), io.StringIO(cifbody % ('P 1 21/c 1', xs))
     r = Atoms.load_p1_cif(good)
     ctx.observe('n', len(r.positions))
     with core.nosimplify():
@@ -384,6 +388,16 @@ loop_
     except Exception as ex:
         rejected2 = 'P1' in str(ex)
     ctx.require("a monoclinic symbol that merely starts with 'P 1' is rejected", rejected2)
+
+
+def hint_inputs(ctx, p):
+    """awkward concrete values tried on the real code (real PyCifRW text layer) when a solver witness does not reproduce: charges and
+    coordinates that Python prints in exponent notation, many-digit values"""
+    N = p.get('N', 2)
+    h1 = {f"q{i}": [6.25e-05, -3.0517578125e-05, 1.5e-7, -2.5e-05][i % 4] for i in range(N)}
+    h1.update({f"f{i}{c}": [0.123456789, 0.5000499, 0.99994][(i + k) % 3] for i in range(N) for k, c in enumerate('xyz')})
+    h2 = {f"q{i}": [-0.35, 1.2345678901234567, 6.25e-05][i % 3] for i in range(N)}
+    return [h1, h2, {'x': 0.25}, {'x': 3.0517578125e-05}]
 
 
 SELFTESTS = [
